@@ -442,6 +442,9 @@ class Gate(Transformation):
       first parameters together, assuming all the other parameters match.
     """
 
+    # whether a vanishing first parameter makes the gate the identity
+    _zero_is_identity = True
+
     def __init__(self, par):
         super().__init__(par)
         # default: non-dagger form
@@ -495,7 +498,7 @@ class Gate(Transformation):
         z = self.p[0]
         # if z represents a batch of parameters, then all of these
         # must be zero to skip calling backend
-        if np.all(z == 0):
+        if self._zero_is_identity and np.all(z == 0):
             # identity, no need to apply
             return
         if self.dagger:
@@ -2002,9 +2005,18 @@ class MZgate(Gate):
     def __init__(self, phi_in, phi_ex):
         super().__init__([phi_in, phi_ex])
 
+    # MZgate(0, phi_ex) is not the identity
+    _zero_is_identity = False
+
     def _apply(self, reg, backend, **kwargs):
         phi_in, phi_ex = par_evaluate(self.p)
-        backend.mzgate(phi_in, phi_ex, *reg)
+        if self.dagger:
+            # Gate.apply has negated phi_in, but MZgate(phi_in, phi_ex)^dagger is not
+            # MZgate(-phi_in, phi_ex); it is (R(pi - phi_ex) x I) MZgate(-phi_in, pi)
+            backend.mzgate(phi_in, np.pi, *reg)
+            backend.rotation(np.pi - phi_ex, reg[0])
+        else:
+            backend.mzgate(phi_in, phi_ex, *reg)
 
     def _decompose(self, reg, **kwargs):
         # into local phase shifts and two 50-50 beamsplitters
